@@ -8,7 +8,8 @@
                                           no duplicate create, no use of a missing id);
   * `proj P envs id ops`               — `none` if `id` is not live after `ops`, else `some (lang, sops)`: the
                                           language of its last `create` and the calls addressed to it since then,
-                                          as stand-alone `StoreOp`s (texts tokenised for `lang`);
+                                          as stand-alone `StoreOp`s (texts tokenised for `lang`; a
+                                          `clearStore id` = `using_store(id, |s| s.clear())` becomes `StoreOp.clear`);
   * `runOne S P sops`                  — `sops` run on `Store::new()`: the stand-alone store;
   * `lastResults S P sops`             — the hits of the last search in `sops`, computed by the stand-alone
                                           store at that moment (`[]` if there was none).
@@ -97,6 +98,38 @@ theorem C20_results_stable (S : Sorter) (P : Prog) (envs : Nat → Env) (g : Reg
   split
   · rfl
   · rcases hop with ⟨_, _, _, _, rfl⟩ | ⟨_, _, rfl⟩ | ⟨_, _, _, rfl⟩ <;> simp only <;> split <;> rfl
+
+/-- CLEARING ONE ID'S STORE (`using_store(id, |s| s.clear())`, reachable through the Rust API only). The call
+    * leaves the store of every other id unchanged,
+    * leaves the whole result-buffer map unchanged — the buffer of `id` included: it keeps the hits of the last
+      `run_search(id, ·)` until the next one, exactly as the Rust code does,
+    * replaces the store `st` held for `id` by `Store.clear st` (no records, position counter 0, empty index, no
+      cache; limit and markers kept) and keeps the language it was created with,
+    * and does nothing at all when `id` has no store (the invalid call).
+    Holds in every registry state, for every program, family of environments and sorting routine. -/
+theorem C20_clear_isolated (S : Sorter) (P : Prog) (envs : Nat → Env) (g : Registry) (id : Nat) :
+    (∀ j, j ≠ id → amGet (g.step S P envs (.clearStore id)).stores j = amGet g.stores j) ∧
+    (g.step S P envs (.clearStore id)).results = g.results ∧
+    (∀ lang st, amGet g.stores id = some (lang, st) →
+      amGet (g.step S P envs (.clearStore id)).stores id = some (lang, st.clear)) ∧
+    (amGet g.stores id = none → g.step S P envs (.clearStore id) = g) := by
+  refine ⟨fun j hj => (step_other S P envs g (.clearStore id) j (fun e => hj e.symm)).1, ?_, ?_, ?_⟩
+  · unfold Registry.step
+    split
+    · rfl
+    · simp only; split <;> rfl
+  · intro lang st hs
+    simp only [Registry.step, RegOp.valid, hs, Option.isSome_some, Bool.not_true, Bool.false_eq_true, if_false]
+    exact amGet_amSet_same _ _ _
+  · intro hs
+    simp [Registry.step, RegOp.valid, hs]
+
+/-- `C20_clear_isolated` read through the bridge: `get_result_ids` / `get_result_titles` of every id (the cleared one
+    included) return after the call what they returned before. -/
+theorem C20_clear_bridge_unchanged (S : Sorter) (P : Prog) (envs : Nat → Env) (g : Registry) (id j : Nat) :
+    getResultIds (g.step S P envs (.clearStore id)) j = getResultIds g j ∧
+    getResultTitles (g.step S P envs (.clearStore id)) j = getResultTitles g j := by
+  simp only [getResultIds, getResultTitles, (C20_clear_isolated S P envs g id).2.1, and_self]
 
 /-- A destroyed id can be created again and starts empty: a new store (default limit and markers, no records,
     empty index, no cache) for the requested language and an empty result buffer. -/
@@ -190,5 +223,19 @@ private def exOps : List RegOp :=
 example : Registry.allValid exS Gen.srcProg exEnvs Registry.empty exOps = true := by decide
 example : (proj Gen.srcProg exEnvs 1 exOps).map (·.2.length) = some 0 := by decide
 example : (proj Gen.srcProg exEnvs 2 exOps).map (·.2.length) = some 3 := by decide
+
+/-- a valid call list with a `clearStore`: id 1 holds one record and a buffered hit, is cleared (buffer kept, store
+    emptied, id 2 untouched), receives another record -/
+private def exOpsClear : List RegOp :=
+  [.create 1 0, .create 2 0, .addRecord 1 10 [97] 5, .addRecord 2 20 [98] 1, .runSearch 1 [], .clearStore 1,
+   .addRecord 1 11 [99] 2]
+
+example : Registry.allValid exS Gen.srcProg exEnvs Registry.empty exOpsClear = true := by decide
+example : (proj Gen.srcProg exEnvs 1 exOpsClear).map (·.2) =
+    some [.add 10 (tokenizeRecord Gen.srcProg (exEnvs 0) [97]) 5, .search (tokenizeQuery Gen.srcProg (exEnvs 0) []),
+      .clear, .add 11 (tokenizeRecord Gen.srcProg (exEnvs 0) [99]) 2] := by decide
+example : ((amGet (Registry.empty.run exS Gen.srcProg exEnvs exOpsClear).stores 1).map (·.2.records.map (·.id)),
+    (amGet (Registry.empty.run exS Gen.srcProg exEnvs exOpsClear).results 1).map (·.map (·.id))) =
+    (some [11], some [10]) := by decide
 
 end Lucid
